@@ -484,3 +484,116 @@ impl World {
         self.obs_level = saved;
     }
 }
+
+impl World {
+    fn full_obs(&self, d: &Automerge) -> J {
+        let applied: Vec<ChangeHash> = d.get_changes(&[]).iter().map(|c| c.hash()).collect();
+        let v = proj::view(d, None);
+        json!({
+            "heads": enc::hashes_sorted(&d.get_heads()),
+            "applied": enc::hashes_sorted(&applied),
+            "queued": enc::hashes_sorted(&d.verif_queued_hashes()),
+            "missing": enc::hashes_sorted(&d.get_missing_deps(&[])),
+            "actor": enc::actor_num(d.get_actor()),
+            "vd": chg::digest(v.to_string().as_bytes()),
+            "sd": chg::digest(&d.save()),
+        })
+    }
+
+    /// C28: a transaction of random calls that is rolled back (front: "tx" = Transaction::rollback,
+    /// "transact" = transact() with a closure returning Err, "auto" = AutoCommit::rollback on a
+    /// document loaded from this replica's save).  Logs the observation before and after and the
+    /// hash of one and the same follow-up change made on the rolled-back document and on a clone
+    /// taken before the transaction.
+    pub fn rollback_tx(&mut self, r: usize, rng: &mut Rng, prof: &Profile, ncalls: usize, front: &str) {
+        let ev = json!({"ev":"rollback","r":r+1,"front":front});
+        let front = front.to_string();
+        self.guarded(r, ev, |w| {
+            let before = w.full_obs(&w.reps[r]);
+            let mut clone = w.reps[r].clone();
+            let mut done: Vec<J> = vec![];
+            let follow = json!({"fn":"put","obj":[0,0],"key":"k1","val":{"k":"int","s":"4242","n":0,"toks":[]}});
+            let mut gen_and_exec = |tx: &mut dyn FnMut(&J) -> J, view: &dyn Fn() -> J, rng: &mut Rng, inflight: &mut Vec<J>| {
+                for _ in 0..ncalls {
+                    let v = view();
+                    let call = calls::gen(rng, &v, prof);
+                    inflight.push(call.clone());
+                    let out = tx(&call);
+                    let mut rec = call.clone();
+                    rec["res"] = out["res"].clone();
+                    rec["ret"] = out["ret"].clone();
+                    done.push(rec);
+                }
+            };
+            let after_doc: Automerge;
+            match front.as_str() {
+                "transact" => {
+                    let res: Result<automerge::transaction::Success<()>, automerge::transaction::Failure<()>> =
+                        w.reps[r].transact(|tx| {
+                            for _ in 0..ncalls {
+                                let v = proj::view(tx, None);
+                                let call = calls::gen(rng, &v, prof);
+                                let out = calls::exec(tx, &call);
+                                let mut rec = call.clone();
+                                rec["res"] = out["res"].clone();
+                                done.push(rec);
+                            }
+                            Err(())
+                        });
+                    let _ = res;
+                    after_doc = w.reps[r].clone();
+                }
+                "auto" => {
+                    let bytes = w.reps[r].save();
+                    let actor = w.reps[r].get_actor().clone();
+                    let mut ac = automerge::AutoCommit::load_with_options(
+                        &bytes,
+                        LoadOptions::new().text_encoding(w.enc),
+                    )
+                    .expect("load own save")
+                    .with_actor(actor);
+                    for _ in 0..ncalls {
+                        let v = proj::view(&ac, None);
+                        let call = calls::gen(rng, &v, prof);
+                        w.inflight.push(call.clone());
+                        let out = calls::exec(&mut ac, &call);
+                        let mut rec = call.clone();
+                        rec["res"] = out["res"].clone();
+                        done.push(rec);
+                    }
+                    ac.rollback();
+                    after_doc = ac.document().clone();
+                    // the baseline for "auto" is the loaded document, which equals the replica (C11)
+                }
+                _ => {
+                    let w_inflight = &mut w.inflight;
+                    let doc = &mut w.reps[r];
+                    let mut tx = doc.transaction();
+                    {
+                        let txr = std::cell::RefCell::new(&mut tx);
+                        let mut exec = |c: &J| calls::exec(&mut **txr.borrow_mut(), c);
+                        let view = || proj::view(&**txr.borrow(), None);
+                        gen_and_exec(&mut exec, &view, rng, w_inflight);
+                    }
+                    tx.rollback();
+                    after_doc = w.reps[r].clone();
+                }
+            }
+            let after = w.full_obs(&after_doc);
+            // the same follow-up edit on both documents must give byte-identical changes
+            let mut a2 = after_doc.clone();
+            let next = |d: &mut Automerge| -> String {
+                let mut tx = d.transaction();
+                calls::exec(&mut tx, &follow);
+                let (h, _) = tx.commit_with(CommitOptions::default().with_time(0));
+                match h.and_then(|h| d.get_change_by_hash(&h)) {
+                    Some(c) => format!("{}:{}", enc::hash_str(&c.hash()), chg::digest(c.raw_bytes())),
+                    None => "none".to_string(),
+                }
+            };
+            let na = next(&mut a2);
+            let nc = next(&mut clone);
+            json!({"res":"ok","calls":done,"before":before,"after":after,"next_a":na,"next_c":nc})
+        });
+    }
+}
